@@ -138,6 +138,28 @@ CHECKS['C06'] = dict(
     design_ref='DESIGN.md section 6, C06',
     technique='Coq proof (credit invariant over all schedules; quiescence characterisation) + in-Coq correspondence with the four library sources and real endpoints')
 
+CHECKS['C12'] = dict(
+    text='Theorems (props/C12.v): the byte loop terminates on arbitrary bytes for any decoder verdicts and a bad body does not disturb '
+         'the frames after it; for ANY received frame, handler behaviour and state, the table and reassembly entries of every other '
+         'stream are untouched and everything queued in reaction is on the offending frame\'s stream; the structural invariant holds '
+         'after every history; a request on a free id is then served as on a fresh connection; raising handler -> one ERROR on that '
+         'stream, state unchanged; frames for unknown streams dropped. Tied to the code by replaying hostile recorded histories of a '
+         'real endpoint (illegal frames, raw bytes, empty messages, raising handlers; both roles and framings) through the model '
+         'inside Coq, plus the property oracle: tasks alive, nothing escapes, probe requests in both directions still served.',
+    design_ref='DESIGN.md section 6, C12',
+    technique='Coq proof (locality of frame handling, invariant over all histories, parser totality) + in-Coq trace correspondence on hostile histories of a real endpoint')
+
+CHECKS['C07'] = dict(
+    text='Theorems over ALL histories of atomic sections (props/C07.v): the library resolves a request-response awaitable at most once, '
+         'and never after it was resolved or cancelled; per atomic section a subscriber receives at most one element/terminal signal, '
+         'none once its receiving side is closed, and a terminal signal closes it, hence over every history at most one terminal signal '
+         'and nothing after it (premise: no PAYLOAD reaches a channel whose receive direction is already closed); what the close sweep '
+         'does per kind of interaction. Tied to the code by replaying recorded legal histories of a real endpoint (all models, both '
+         'roles/framings, fragmentation, connection lost by EOF/error/close()/mid-frame cut at a random point) through the model inside '
+         'Coq, plus the signal-language oracle on the recording application and "no awaitable left pending after close".',
+    design_ref='DESIGN.md section 6, C07',
+    technique='Coq proof (potential-function invariants over all histories of the endpoint model) + in-Coq trace correspondence with a real endpoint')
+
 NOT_YET = {}
 
 def main():
